@@ -21,7 +21,7 @@ sys.path.insert(0, ROOT)
 # replays import the package from the same tree the verification conditions are generated from
 sys.path.insert(0, os.environ.get("ATOMICA_REPO", "/repo"))
 
-TIERS = {"quick": dict(timeout_ms=10000), "thorough": dict(timeout_ms=120000)}
+TIERS = {"quick": dict(timeout_ms=30000), "thorough": dict(timeout_ms=180000)}
 
 
 def load_registry():
